@@ -122,7 +122,15 @@ pub enum TreeSpec {
     inner: Option<InnerMapSpec>,
   },
   Concat { children: Vec<TreeSpec>, how: ConcatHow },
-  Replace { inner: Box<TreeSpec>, calls: Vec<ReplCall> },
+  Replace {
+    inner: Box<TreeSpec>,
+    calls: Vec<ReplCall>,
+    /// pre-history: after this many calls the builder observes the value once
+    /// (`source()`, which sorts), then applies the remaining calls — so the
+    /// shared value starts with a non-empty, stale sorted index
+    #[serde(default)]
+    observe_at: Option<u32>,
+  },
   /// Nodes with the same `cache_id` are clones of one `CachedSource` and share
   /// its caches; the first one built defines the wrapped tree.
   Cached { inner: Box<TreeSpec>, cache_id: u32 },
@@ -184,7 +192,7 @@ impl TreeSpec {
         "Concat({})",
         children.iter().map(|c| c.shape()).collect::<Vec<_>>().join(",")
       ),
-      TreeSpec::Replace { inner, calls } => {
+      TreeSpec::Replace { inner, calls, .. } => {
         format!("Replace[{}]({})", calls.len(), inner.shape())
       }
       TreeSpec::Cached { inner, cache_id } => {
@@ -370,9 +378,20 @@ impl Builder {
       })
       .boxed(),
       TreeSpec::Concat { children, how } => self.build_concat(children, how).boxed(),
-      TreeSpec::Replace { inner, calls } => {
+      TreeSpec::Replace {
+        inner,
+        calls,
+        observe_at,
+      } => {
         let mut r = ReplaceSource::new(self.build(inner));
-        apply_calls(&mut r, calls);
+        match observe_at {
+          Some(k) if (*k as usize) <= calls.len() => {
+            apply_calls(&mut r, &calls[..*k as usize]);
+            let _ = r.source();
+            apply_calls(&mut r, &calls[*k as usize..]);
+          }
+          _ => apply_calls(&mut r, calls),
+        }
         r.boxed()
       }
       TreeSpec::Cached { inner, cache_id } => {
